@@ -1,6 +1,8 @@
 #!/venv/bin/python
 """Translator: dump the Python AST of the small pure helpers of curtsies, node by node,
-into terms of the PyMini syntax (coq/Spec/PyMini.v) -> coq/Gen/Pure.v.
+into terms of the PyMini syntax (coq/Spec/PyMini.v) -> coq/Gen/Pure.v (the loop-free helpers) and
+coq/Gen/PureFmt.v (the slicing algorithms of FmtStr: methods and properties with `for` loops, objects,
+local lists; proofs Proofs/PureTieFmt*.v, context Spec/PyEnvFmt.v).
 
 The translator decides nothing about meaning: one AST node becomes one constructor.
 The reference interpreter in Spec/PyMini.v gives the meaning, and Proofs/PureTie.v,
@@ -26,9 +28,10 @@ import textwrap
 REPO = os.environ.get("CURTSIES_REPO", "/repo")
 sys.path.insert(0, REPO)
 os.environ.setdefault("TERM", "xterm-256color")
-OUT = os.path.join(os.path.dirname(os.path.abspath(__file__)), "..", "coq", "Gen", "Pure.v")
+OUTDIR = os.path.join(os.path.dirname(os.path.abspath(__file__)), "..", "coq", "Gen")
+OUT = os.path.join(OUTDIR, "Pure.v")
 
-# (module, function name, Coq name)
+# (module, function name, Coq name); "Class.member" is a method, or the getter of a property
 FUNCTIONS = [
     ("curtsies.formatstring", "normalize_slice", "py_normalize_slice"),
     ("curtsies.formatstring", "interval_overlap", "py_interval_overlap"),
@@ -38,6 +41,17 @@ FUNCTIONS = [
     ("curtsies.events", "_key_name", "py_key_name"),
     ("curtsies.events", "get_key", "py_get_key"),
 ]
+# a second file, so that an edit of formatstring.py does not recompile the proofs about events.py
+FUNCTIONS_FMT = [
+    ("curtsies.formatstring", "Chunk.s", "py_Chunk_s"),
+    ("curtsies.formatstring", "Chunk.atts", "py_Chunk_atts"),
+    ("curtsies.formatstring", "Chunk.__len__", "py_Chunk_len"),
+    ("curtsies.formatstring", "FmtStr.__getitem__", "py_FmtStr_getitem"),
+    ("curtsies.formatstring", "FmtStr.divides", "py_FmtStr_divides"),
+    ("curtsies.formatstring", "width_aware_slice", "py_width_aware_slice"),
+    ("curtsies.formatstring", "FmtStr.width_aware_slice", "py_FmtStr_width_aware_slice"),
+]
+FILES = [("Pure.v", FUNCTIONS, True), ("PureFmt.v", FUNCTIONS_FMT, False)]
 
 EXN = {"IndexError", "ValueError", "TypeError", "KeyError", "AssertionError", "NotImplementedError",
        "UnicodeDecodeError"}
@@ -47,10 +61,16 @@ CMPOP = {ast.Lt: "CLt", ast.LtE: "CLtE", ast.Gt: "CGt", ast.GtE: "CGtE", ast.Eq:
          ast.Is: "CIs", ast.IsNot: "CIsNot", ast.In: "CIn", ast.NotIn: "CNotIn"}
 # names the interpreter treats as builtins (functions and classes): must not be shadowed by the module
 BUILTINS = {"len", "ord", "abs", "bool", "int", "all", "any", "max", "min", "isinstance", "slice", "range",
-            "bytes", "str"}
+            "bytes", "str", "zip"}
 # module-level data dumped by gen/gen_tables.py from the same live module (coq/Gen/Tables.v)
 TABLE_GLOBALS = {"curtsies.events": {"CURTSIES_NAMES", "CURSES_NAMES", "KEYMAP_PREFIXES", "MAX_KEYPRESS_SIZE"}}
 STDLIB_MODULES = {"codecs"}
+# module-level names that are NOT translated: their meaning is a named oracle of Spec/PyEnvFmt.v.  The
+# translator only checks that the name is bound to what the oracle is about:
+#   "class"    a class defined in this module;      "function" a function defined in this module;
+#   (mod, nm)  the object mod.nm of another module (the C library binding cwcwidth)
+ORACLE_GLOBALS = {"curtsies.formatstring": {"Chunk": "class", "FmtStr": "class", "fmtstr": "function",
+                                            "wcwidth": ("cwcwidth", "wcwidth"), "wcswidth": ("cwcwidth", "wcswidth")}}
 
 
 class TieError(Exception):
@@ -139,6 +159,8 @@ def expr(e):
         if not isinstance(e.func, ast.Name):
             bad(e, "call outside the subset")
         f = e.func.id
+        if n == 1 and isinstance(e.args[0], ast.Starred):           # f(*a)
+            return "(ECallStar %s %s)" % (q(f), call_arg(e.args[0].value))
         if f == "isinstance" and (n != 2 or not isinstance(e.args[1], ast.Name)):
             bad(e, "isinstance against something other than a class name")
         if n == 1:
@@ -147,7 +169,7 @@ def expr(e):
             return "(ECall2 %s %s %s)" % (q(f), call_arg(e.args[0]), call_arg(e.args[1]))
         if n == 3:
             return "(ECall3 %s %s %s %s)" % (q(f), call_arg(e.args[0]), call_arg(e.args[1]), call_arg(e.args[2]))
-        bad(e, "call of %s with %d arguments" % (f, n))
+        return "(ECallN %s [%s])" % (q(f), "; ".join(call_arg(x) for x in e.args))
     if isinstance(e, ast.Subscript):
         s = e.slice
         if isinstance(s, ast.Slice):
@@ -159,6 +181,12 @@ def expr(e):
         if isinstance(s, ast.Tuple):
             bad(e, "subscript outside the subset")
         return "(EIndex %s %s)" % (expr(e.value), expr(s))
+    if isinstance(e, ast.List) and isinstance(e.ctx, ast.Load):
+        return "(EList [%s])" % "; ".join(expr(x) for x in e.elts)
+    if isinstance(e, ast.Tuple) and isinstance(e.ctx, ast.Load):
+        return "(ETuple [%s])" % "; ".join(expr(x) for x in e.elts)
+    if isinstance(e, ast.IfExp):
+        return "(ECond %s %s %s)" % (expr(e.test), expr(e.body), expr(e.orelse))
     bad(e, "expression outside the subset")
 
 
@@ -230,6 +258,21 @@ def stmt(s, ind):
         if h.name is not None or not isinstance(h.type, ast.Name) or h.type.id not in EXN:
             bad(s, "exception handler outside the subset")
         return "STry %s %s %s %s" % (block(s.body, ind), h.type.id, block(h.body, ind), block(s.orelse, ind))
+    if isinstance(s, ast.For):
+        if s.orelse:
+            bad(s, "for ... else")
+        t = s.target
+        if isinstance(t, ast.Name):
+            tgt = "(TName %s)" % q(t.id)
+        elif isinstance(t, ast.Tuple) and all(isinstance(x, ast.Name) for x in t.elts):
+            tgt = "(TTuple [%s])" % "; ".join(q(x.id) for x in t.elts)
+        else:
+            bad(s, "for target outside the subset")
+        return "SFor %s %s %s" % (tgt, expr(s.iter), block(s.body, ind))
+    if isinstance(s, ast.Break):
+        return "SBreak"
+    if isinstance(s, ast.Continue):
+        return "SContinue"
     bad(s, "statement outside the subset")
 
 
@@ -250,7 +293,7 @@ def free_names(fd):
 
 def check_free_names(modname, mod, fname, fd, enums):
     import builtins
-    translated = {f for m, f, _ in FUNCTIONS if m == modname}
+    translated = {f for m, f, _ in FUNCTIONS + FUNCTIONS_FMT if m == modname and "." not in f}
     g = vars(mod)
     for n in sorted(free_names(fd)):
         if n in BUILTINS or n in EXN:
@@ -266,6 +309,15 @@ def check_free_names(modname, mod, fname, fd, enums):
             continue
         if n in TABLE_GLOBALS.get(modname, ()):
             continue
+        if n in ORACLE_GLOBALS.get(modname, {}):
+            kind = ORACLE_GLOBALS[modname][n]
+            if kind == "class" and isinstance(v, type) and v.__module__ == modname and v.__name__ == n:
+                continue
+            if kind == "function" and inspect.isfunction(v) and v.__module__ == modname and v.__name__ == n:
+                continue
+            if isinstance(kind, tuple) and v is getattr(sys.modules.get(kind[0]), kind[1], None) and v is not None:
+                continue
+            raise TieError("%s.%s: %s is not what its oracle is about (%r)" % (modname, fname, n, kind))
         if isinstance(v, type) and issubclass(v, enum.Enum):
             if len(list(v)) != len(v.__members__):
                 raise TieError("%s.%s: enum %s has aliases" % (modname, fname, n))
@@ -276,8 +328,10 @@ def check_free_names(modname, mod, fname, fd, enums):
         raise TieError("%s.%s: free name %s (%s) is not accounted for" % (modname, fname, n, type(v).__name__))
 
 
-def gen():
+def gen(functions=None, with_enums=True):
     import importlib
+    if functions is None:
+        functions = FUNCTIONS
     out = ["(* GENERATED by gen/gen_pure.py from the working tree of the repository -- do not edit *)",
            "From Coq Require Import String ZArith List.",
            "From Curtsies Require Import Model.Base Spec.PyMini.",
@@ -285,7 +339,7 @@ def gen():
            "Local Open Scope string_scope.",
            ""]
     enums = {}
-    for modname, fname, coqname in FUNCTIONS:
+    for modname, fname, coqname in functions:
         try:
             out.append(gen_function(importlib, modname, fname, coqname, enums))
         except TieError as e:
@@ -295,10 +349,13 @@ def gen():
             out.append("(* %s.%s -- UNTRANSLATABLE: %s *)" % (modname, fname, str(e).replace("*)", "* )").replace("(*", "( *").replace('"', "''")))
             out.append("Definition %s : fundef := mkFun [] [] [SRaise OtherError]." % coqname)
         out.append("")
-    out.append("(* member names of the Enum classes mentioned by the functions above *)")
-    out.append("Definition py_enums : list (string * list string) :=\n  [%s]." % "; ".join(
-        "(%s, [%s])" % (q(n), "; ".join(q(m) for m in ms)) for n, ms in sorted(enums.items())))
-    out.append("")
+    if with_enums:
+        out.append("(* member names of the Enum classes mentioned by the functions above *)")
+        out.append("Definition py_enums : list (string * list string) :=\n  [%s]." % "; ".join(
+            "(%s, [%s])" % (q(n), "; ".join(q(m) for m in ms)) for n, ms in sorted(enums.items())))
+        out.append("")
+    elif enums:
+        raise TieError("Enum classes are not expected in this file: %s" % sorted(enums))
     return "\n".join(out)
 
 
@@ -309,17 +366,41 @@ def gen_function(importlib, modname, fname, coqname, enums):
     out = []
     if True:
         mod = importlib.import_module(modname)
-        fn = getattr(mod, fname, None)
-        if not inspect.isfunction(fn) or fn.__name__ != fname or fn.__module__ != modname:
-            raise TieError("%s.%s is not a plain function of that module" % (modname, fname))
+        decorators = []
+        if "." in fname:
+            # a method, or the getter of a property / cached_property (whose caching is not modelled: the
+            # subset has no attribute assignment, so the getter computes the same value every time)
+            clsname, member = fname.split(".")
+            cls = getattr(mod, clsname, None)
+            if not isinstance(cls, type) or cls.__module__ != modname or cls.__name__ != clsname:
+                raise TieError("%s.%s is not a class of that module" % (modname, clsname))
+            fn = cls.__dict__.get(member)
+            if isinstance(fn, property):
+                if fn.fset is not None or fn.fdel is not None:
+                    raise TieError("%s.%s: property with a setter" % (modname, fname))
+                fn, decorators = fn.fget, ["property"]
+            elif type(fn).__name__ == "cached_property" and hasattr(fn, "func"):
+                fn, decorators = fn.func, ["cached_property"]
+            if not inspect.isfunction(fn) or fn.__name__ != member or fn.__module__ != modname \
+                    or fn.__qualname__ != fname:
+                raise TieError("%s.%s is not a plain method / property getter of that class" % (modname, fname))
+        else:
+            fn = getattr(mod, fname, None)
+            if not inspect.isfunction(fn) or fn.__name__ != fname or fn.__module__ != modname:
+                raise TieError("%s.%s is not a plain function of that module" % (modname, fname))
         src = textwrap.dedent(inspect.getsource(fn))
         tree = ast.parse(src)
         if len(tree.body) != 1 or not isinstance(tree.body[0], ast.FunctionDef):
             raise TieError("%s.%s is not a plain function" % (modname, fname))
         fd = tree.body[0]
         a = fd.args
-        if a.vararg or a.kwarg or a.kwonlyargs or a.kw_defaults or a.posonlyargs or fd.decorator_list:
+        if [d.id if isinstance(d, ast.Name) else None for d in fd.decorator_list] != decorators:
+            raise TieError("%s.%s: decorators outside the subset" % (modname, fname))
+        if a.vararg or a.kwarg or a.kwonlyargs or a.kw_defaults or a.posonlyargs:
             raise TieError("%s.%s: signature outside the subset" % (modname, fname))
+        if any(isinstance(n, (ast.Yield, ast.YieldFrom, ast.Await, ast.Lambda, ast.FunctionDef, ast.ClassDef,
+                              ast.Global, ast.Nonlocal)) for b in fd.body for n in ast.walk(b)):
+            raise TieError("%s.%s: generator / nested definition / global declaration" % (modname, fname))
         check_free_names(modname, mod, fname, fd, enums)
         params = [x.arg for x in a.args]
         defaults = [expr(d) for d in a.defaults]
@@ -330,22 +411,29 @@ def gen_function(importlib, modname, fname, coqname, enums):
 
 
 def main():
+    texts = []
     try:
-        text = gen()
+        for name, functions, with_enums in FILES:
+            texts.append((name, gen(functions, with_enums)))
     except TieError as e:
         print("TIE-ERROR: %s" % e)
         sys.exit(3)
     if os.environ.get("GEN_PURE_STDOUT"):
-        sys.stdout.write(text)
+        for _, text in texts:
+            sys.stdout.write(text)
         return
-    old = open(OUT).read() if os.path.exists(OUT) else None
-    if old != text:
-        os.makedirs(os.path.dirname(OUT), exist_ok=True)
-        with open(OUT, "w") as f:
-            f.write(text)
-        print("Pure.v rewritten" + "".join("; TIE-ERROR " + f for f in FAILED))
-    else:
-        print("Pure.v unchanged" + "".join("; TIE-ERROR " + f for f in FAILED))
+    msgs = []
+    for name, text in texts:
+        path = os.path.join(OUTDIR, name)
+        old = open(path).read() if os.path.exists(path) else None
+        if old != text:
+            os.makedirs(OUTDIR, exist_ok=True)
+            with open(path, "w") as f:
+                f.write(text)
+            msgs.append("%s rewritten" % name)
+        else:
+            msgs.append("%s unchanged" % name)
+    print(", ".join(msgs) + "".join("; TIE-ERROR " + f for f in FAILED))
 
 
 if __name__ == "__main__":
